@@ -13,11 +13,14 @@ struct sk_ghost {
   int nk_calls; econf_err nk_ret; const char *nk_group, *nk_key; size_t nk_newlen;
   int fn_calls; econf_file *fn_kf; size_t fn_num; const void *fn_value; econf_err fn_ret;
   int ap_calls; econf_err ap_ret; size_t ap_newlen;
-  int sg_calls; size_t sg_num; econf_err sg_ret; int sk_calls; size_t sk_num; const char *sk_value; econf_err sk_ret;
+  int sg_calls; size_t sg_num; const char *sg_value; econf_err sg_ret; int sk_calls; size_t sk_num; const char *sk_value; econf_err sk_ret;
   int gl_calls; const char *gl_name; char *gl_ret;
   int sd_calls;
 };
 extern struct sk_ghost sk;
+extern int sd_n;
+extern const char *sd_src0, *sd_src1;
+extern char *sd_res0, *sd_res1;
 #define IS_CODE(r) ((r) >= ECONF_SUCCESS && (r) <= ECONF_VALUE_CONVERSION_ERROR)
 
 #ifdef PART_SETKEYVALUE
@@ -60,6 +63,98 @@ __CPROVER_ensures((sk.fk_ret == ECONF_NOKEY && sk.nk_ret != ECONF_SUCCESS) ==>
 __CPROVER_ensures((sk.fk_ret != ECONF_SUCCESS && sk.fk_ret != ECONF_NOKEY) ==>
                   (sk.nk_calls == 0 && sk.fn_calls == 0 && __CPROVER_return_value == sk.fk_ret &&
                    kf->length == __CPROVER_old(kf->length)))
+;
+#endif
+
+#ifdef PART_NEWKEY
+/* new_key (static, lib/helpers.c) under contract; the harness reaches it through this forwarding
+ * accessor, compiled into the helpers.c translation unit only. */
+static econf_err new_key(econf_file *key_file, const char *group, const char *key);
+#ifdef VERIF_TU_helpers
+econf_err verif_new_key(econf_file *key_file, const char *group, const char *key) { return new_key(key_file, group, key); }
+#else
+econf_err verif_new_key(econf_file *key_file, const char *group, const char *key);
+#endif
+/* what new_key can observe of the PROVED growth contract (job append, contracts/growth.h): with a
+ * non-NULL object exactly one more live entry, never more live entries than slots, success */
+econf_err key_file_append(econf_file *kf)
+__CPROVER_requires(kf != NULL && sk.ap_calls == 0 && kf->length <= kf->alloc_length && kf->alloc_length < ((size_t)1 << 40))
+__CPROVER_assigns(kf->length, kf->alloc_length, kf->file_entry, sk.ap_calls)
+__CPROVER_ensures(sk.ap_calls == 1 && __CPROVER_return_value == ECONF_SUCCESS)
+__CPROVER_ensures(kf->length == __CPROVER_old(kf->length) + 1 && kf->length <= kf->alloc_length)
+;
+/* the two field setters log their arguments; they REQUIRE an index of a live entry and that the
+ * entry was appended before (their own effect: jobs setkeyfn / setgroupfn) */
+econf_err setGroup(econf_file *key_file, size_t num, const char *value)
+__CPROVER_requires(key_file != NULL && value != NULL && num < key_file->length && sk.ap_calls == 1 && sk.sg_calls == 0)
+__CPROVER_assigns(sk.sg_calls, sk.sg_num, sk.sg_value)
+__CPROVER_ensures(sk.sg_calls == 1 && sk.sg_num == num && sk.sg_value == value && __CPROVER_return_value == sk.sg_ret)
+;
+econf_err setKey(econf_file *key_file, size_t num, const char *value)
+__CPROVER_requires(key_file != NULL && value != NULL && num < key_file->length && sk.sg_calls == 1 && sk.sk_calls == 0)
+__CPROVER_assigns(sk.sk_calls, sk.sk_num, sk.sk_value)
+__CPROVER_ensures(sk.sk_calls == 1 && sk.sk_num == num && sk.sk_value == value && __CPROVER_return_value == sk.sk_ret)
+;
+static econf_err new_key(econf_file *key_file, const char *group, const char *key)
+__CPROVER_requires(key_file == NULL || (key_file == sk.kf && key_file->length <= key_file->alloc_length &&
+                                        key_file->alloc_length < ((size_t)1 << 40)))
+__CPROVER_requires(sk.ap_calls == 0 && sk.sg_calls == 0 && sk.sk_calls == 0 && sd_n == 0)
+__CPROVER_assigns(key_file != NULL: key_file->length, key_file->alloc_length, key_file->file_entry)
+__CPROVER_assigns(sk, sd_n, sd_src0, sd_src1, sd_res0, sd_res1)
+/* C11 "a set creates ... exactly one entry": a missing object or key is refused before anything is appended */
+__CPROVER_ensures((key_file == NULL || key == NULL) ==>
+                  (__CPROVER_return_value == ECONF_ERROR && sk.ap_calls == 0 && sk.sg_calls == 0 && sk.sk_calls == 0))
+__CPROVER_ensures((key_file != NULL && key == NULL) ==> key_file->length == __CPROVER_old(key_file->length))
+/* otherwise exactly one entry is appended and the LAST entry gets the section name - a private copy of
+ * the caller's name, or of the placeholder for "no section" when the name is missing or empty - ... */
+__CPROVER_ensures((key_file != NULL && key != NULL) ==>
+                  (sk.ap_calls == 1 && key_file->length == __CPROVER_old(key_file->length) + 1 &&
+                   sk.sg_calls == 1 && sk.sg_num == key_file->length - 1 && sd_n == 1 && sk.sg_value == sd_res0))
+__CPROVER_ensures((key_file != NULL && key != NULL && group != NULL && *group != 0) ==> sd_src0 == group)
+__CPROVER_ensures((key_file != NULL && key != NULL && (group == NULL || *group == 0)) ==>
+                  (sd_src0 != group && sd_src0[0] == '_' && sd_src0[1] == 'n' && sd_src0[2] == 'o' && sd_src0[3] == 'n' &&
+                   sd_src0[4] == 'e' && sd_src0[5] == '_' && sd_src0[6] == 0))
+/* ... and then the caller's key; a failing section setter ends the call with its code */
+__CPROVER_ensures((key_file != NULL && key != NULL && sk.sg_ret == ECONF_SUCCESS) ==>
+                  (sk.sk_calls == 1 && sk.sk_num == key_file->length - 1 && sk.sk_value == key &&
+                   __CPROVER_return_value == sk.sk_ret))
+__CPROVER_ensures((key_file != NULL && key != NULL && sk.sg_ret != ECONF_SUCCESS) ==>
+                  (sk.sk_calls == 0 && __CPROVER_return_value == sk.sg_ret))
+;
+#endif
+
+#ifdef PART_FIELDSET
+/* setKey / setGroup (lib/keyfile.c): the field setters new_key relies on, any array size, any index */
+char *setGroupList(econf_file *key_file, const char *name)
+__CPROVER_requires(key_file != NULL && name != NULL && sk.gl_calls == 0)
+__CPROVER_assigns(sk.gl_calls, sk.gl_name)
+__CPROVER_ensures(sk.gl_calls == 1 && sk.gl_name == name && __CPROVER_return_value == sk.gl_ret)
+;
+econf_err setKey(econf_file *key_file, size_t num, const char *value)
+__CPROVER_requires(key_file == NULL || (key_file->file_entry != NULL && num < key_file->alloc_length))
+__CPROVER_requires(sd_n == 0)
+__CPROVER_assigns(key_file != NULL && value != NULL: key_file->file_entry[num].key)
+__CPROVER_assigns(sd_n, sd_src0, sd_src1, sd_res0, sd_res1)
+__CPROVER_frees(key_file != NULL && value != NULL: key_file->file_entry[num].key)
+/* a missing object or name is refused without effect */
+__CPROVER_ensures((key_file == NULL || value == NULL) ==> (__CPROVER_return_value == ECONF_ERROR && sd_n == 0))
+/* otherwise the entry's key becomes a private copy of the caller's text (the old one is released: frees
+ * clause + memory-leak check) and nothing else of the object changes (frame) */
+__CPROVER_ensures((key_file != NULL && value != NULL) ==>
+                  (__CPROVER_return_value == ECONF_SUCCESS && sd_n == 1 && sd_src0 == value &&
+                   key_file->file_entry[num].key == sd_res0 && sd_res0 != NULL))
+;
+econf_err setGroup(econf_file *key_file, size_t num, const char *value)
+__CPROVER_requires(key_file == NULL || (key_file->file_entry != NULL && num < key_file->alloc_length))
+__CPROVER_requires(sk.gl_calls == 0)
+__CPROVER_assigns(key_file != NULL && value != NULL: key_file->file_entry[num].group)
+__CPROVER_assigns(sk.gl_calls, sk.gl_name)
+__CPROVER_ensures((key_file == NULL || value == NULL) ==> (__CPROVER_return_value == ECONF_ERROR && sk.gl_calls == 0))
+/* the section name is interned in the object's section list and the entry points at the interned
+ * text - it never owns it (C20: entries of one section share the name) */
+__CPROVER_ensures((key_file != NULL && value != NULL) ==>
+                  (sk.gl_calls == 1 && sk.gl_name == value && key_file->file_entry[num].group == sk.gl_ret &&
+                   __CPROVER_return_value == (sk.gl_ret != NULL ? ECONF_SUCCESS : ECONF_NOMEM)))
 ;
 #endif
 
